@@ -263,6 +263,97 @@ def waitfor_stage(chk):
 
 
 # ---------------------------------------------------------------------------------------
+# stage 3b: the abstract semantics vs real pykka on scripted Tell/Call programs
+
+
+def gen_program(rng):
+    """Ranked program: actor i only calls actors j > i; every message triggers a handler with a
+    smaller id than the sending handler, so every run terminates; tells go anywhere."""
+    n = rng.randint(2, 5)
+    hmax = rng.randint(1, 3)
+    table = []
+    for a in range(n):
+        for h in range(1, hmax + 1):
+            instrs = []
+            for _ in range(rng.randint(0, 3)):
+                if a < n - 1 and rng.random() < 0.6:
+                    instrs.append(["call", rng.randint(a + 1, n - 1), rng.randint(0, h - 1)])
+                else:
+                    instrs.append(["tell", rng.randint(0, n - 1), rng.randint(0, h - 1)])
+            if instrs:
+                table.append([a, h, instrs])
+    inject = [[rng.randint(0, n - 1), rng.randint(0, hmax)] for _ in range(rng.randint(1, 6))]
+    order = list(range(n))
+    rng.shuffle(order)
+    return {"n": n, "table": table, "inject": inject, "order": order}
+
+
+DEADLOCK_SHAPES = [
+    {"n": 1, "table": [[0, 1, [["call", 0, 0]]]], "inject": [[0, 1]], "order": [0], "ask_timeout": 0.4},
+    {"n": 2, "table": [[0, 1, [["call", 1, 1]]], [1, 1, [["call", 0, 0]]]], "inject": [[0, 1]], "order": [1, 0],
+     "ask_timeout": 0.4},
+    {"n": 3, "table": [[0, 2, [["tell", 2, 0], ["call", 1, 1]]], [1, 1, [["call", 2, 1]]], [2, 1, [["call", 0, 0]]]],
+     "inject": [[0, 2]], "order": [2, 0, 1], "ask_timeout": 0.4},
+]
+
+
+def g_sim_case(c, r):
+    def g_instr(i):
+        return f"({'ICall' if i[0] == 'call' else 'ITell'} {i[1]} {i[2]})"
+    table = g_list([f"({a}, {h}, {g_list([g_instr(i) for i in instrs])})" for a, h, instrs in c["table"]])
+    inject = g_list([f"({a}, {h})" for a, h in c["inject"]])
+    order = g_list([str(a) for a in c["order"]])
+    counts = g_list([f"({a}, {h}, {g_z(k)}%Z)" for a, h, k in r["counts"]])
+    return (f"(mkSim {c['n']} {table} {inject} {order} {counts} {g_z(r['total'])}%Z {g_bool(r['deadlock'])})")
+
+
+def pykka_stage(chk):
+    n = 150 if chk.tier == "quick" else 1500
+    cases = [dict(c) for c in DEADLOCK_SHAPES] + [gen_program(chk.rng) for _ in range(n)]
+    results = run_parallel("pykka", cases, per_case_timeout=35)
+    rows, ok = [], True
+    for i, c in enumerate(cases):
+        r = results.get(i)
+        if r is None or r.get("skipped"):
+            continue
+        expect_deadlock = "ask_timeout" in c
+        if "hang" in r or "harness_error" in r or not r.get("quiet", False):
+            if not expect_deadlock:
+                chk.monitor_failure("no_deadlock", {"mode": "pykka"},
+                                    "a ranked Tell/Call program on real pykka actors did not finish",
+                                    {"case": c, "detail": r})
+            else:
+                ok = False
+                chk.corr_failure("pykka-semantics", c, f"deadlock shape did not report: {r}")
+            continue
+        if r["deadlock"] and not expect_deadlock:
+            chk.monitor_failure("no_deadlock", {"mode": "pykka"},
+                                "a ranked Tell/Call program on real pykka actors blocked", {"case": c, "detail": r})
+            continue
+        rows.append((c, r))
+        chk.count(1, nontrivial_key=("pykka", json.dumps(c, sort_keys=True)) if r["total"] > len(c["inject"]) else None)
+        chk.dist("pykka_deadlock_shape" if expect_deadlock else f"pykka_actors={c['n']}")
+    if rows:
+        chk.sample({"pykka_case": rows[-1][0], "observed": rows[-1][1]})
+    shards = [rows[i:i + 250] for i in range(0, len(rows), 250)]
+    texts = ["From Coq Require Import ZArith List Bool.\nImport ListNotations.\n"
+             "From Common Require Import Cases.\nFrom Actors Require Import WaitFor Sim.\n"
+             "Open Scope nat_scope.\n"
+             "Definition cases : list sim_case :=\n " + g_list([g_sim_case(c, r) for c, r in sh]) + ".\n"
+             "Eval vm_compute in mismatches sim_ok cases.\n" for sh in shards]
+    for sh, (rc, out) in zip(shards, vlib.coq_eval_many(AREA, texts)):
+        bad = vlib.parse_nat_list(out)
+        if rc != 0 or bad is None:
+            ok = False
+            chk.corr_failure("pykka-semantics", {"shard": "coq evaluation failed"}, out[-1500:])
+            continue
+        for i in bad:
+            ok = False
+            chk.corr_failure("pykka-semantics", {"case": sh[i][0], "observed": sh[i][1]})
+    chk.obligation("corr:pykka-semantics", "correspondence", ok and bool(rows))
+
+
+# ---------------------------------------------------------------------------------------
 # stage 4: shutdown correspondence
 
 
@@ -360,6 +451,15 @@ def exhaustive_cases():
                             for ol in range(3):
                                 for restore in (0, 1):
                                     out.append(mk_case(hm=hm, om=om, obs=obs, ofs=ofs, ol=ol, restore=restore))
+    # audio and core outcomes too (one backend, one frontend)
+    for oa in range(6):
+        for early in ((0, 1) if oa == DIES else (0,)):
+            for oc in range(6):
+                for om in (OK, DIES, LATE):
+                    for ob in range(6):
+                        for of in range(6):
+                            for ol in (0, 1):
+                                out.append(mk_case(om=om, oa=oa, early=early, obs=[ob], oc=oc, ofs=[of], ol=ol))
     return out
 
 
@@ -568,4 +668,5 @@ def run(chk):
         replay_stage(chk)
         return
     waitfor_stage(chk)
+    pykka_stage(chk)
     shutdown_stage(chk)
